@@ -92,6 +92,30 @@ type inI0Opt struct {
 	B []kit.I0 `group:"g" optional:"true"`
 }
 
+// Recursive named types of reference kind: legal Go, legal service types, and a trap for any
+// code that walks a type's elements without looking at its name first.
+type recSlice []recSlice
+type recMap map[string]recMap
+type recPtr *recPtr
+type recFn func() recFn
+type recChan chan recChan
+
+// use consumes a result the way a caller does: the value is dropped, the error is printed and
+// asked what it is. An error that cannot be rendered or classified is no usable error.
+func use[T any](_ T, err error) { useErr(err) }
+
+func useErr(err error) {
+	if err == nil {
+		return
+	}
+	_ = err.Error()
+	_ = fmt.Sprintf("%v|%+v|%s", err, err, err)
+	_ = classSet(err)
+	for e := err; e != nil; e = errors.Unwrap(e) {
+		_ = e.Error()
+	}
+}
+
 type hostile struct {
 	name string
 	v    any
@@ -157,6 +181,16 @@ func hostileServices() []hostile {
 		{"disposable-map-struct", func() closerStruct { return closerStruct{hooks: map[string]func(){}} }},
 		{"disposable-map-struct-instance", closerStruct{}},
 		{"disposable-zero-size", func() *zeroCloser { return &zeroCloser{} }},
+		{"rec-slice-ctor", func() recSlice { return recSlice{nil} }},
+		{"rec-map-ctor", func() recMap { return recMap{"a": nil} }},
+		{"rec-ptr-ctor", func() recPtr { return nil }},
+		{"rec-fn-ctor", func() recFn { return nil }},
+		{"rec-chan-ctor", func() (recChan, error) { return nil, errors.New("no channel") }},
+		{"rec-slice-instance", recSlice{}},
+		{"rec-map-instance", recMap{}},
+		{"func-needs-rec", func(a recSlice, b recMap, c recPtr) *kit.N0 { return &kit.N0{} }},
+		{"func-rec-needs-unregistered", func(x kit.D5) recMap { return nil }},
+		{"func-rec-slice-needs-unregistered", func(x kit.D5) ([]recSlice, map[string]*recPtr) { return nil, nil }},
 	}
 }
 
@@ -233,6 +267,7 @@ func hostileKeys() []any {
 func hostileTypes() []reflect.Type {
 	return []reflect.Type{nil, kit.RType(0), kit.RType(kit.NumD), kit.RType(kit.TI0), kit.CtxType, kit.ScopeType, kit.ProviderType, reflect.TypeOf(0), reflect.TypeOf(""), reflect.TypeOf(struct{}{}),
 		reflect.TypeOf(closerList{}), reflect.TypeOf(closerStruct{}), reflect.TypeOf(&zeroCloser{}),
+		reflect.TypeOf(recSlice{}), reflect.TypeOf(recMap{}), reflect.TypeOf(recPtr(nil)), reflect.TypeOf(recFn(nil)), reflect.TypeOf(recChan(nil)), reflect.TypeOf([]recSlice{}),
 		reflect.TypeOf([]*kit.N1{}), reflect.TypeOf((*error)(nil)).Elem(), reflect.TypeOf(keyStruct{}), reflect.TypeOf(func() {}), reflect.TypeOf(make(chan int)), reflect.TypeOf(map[string]int{})}
 }
 
@@ -303,6 +338,7 @@ func TestC15Misuse(t *testing.T) {
 				if err == nil {
 					accepted++
 				}
+				useErr(err)
 			})
 		}
 		check("queries(nil)", func() {
@@ -332,6 +368,7 @@ func TestC15Misuse(t *testing.T) {
 			if err != nil {
 				p = nil
 			}
+			useErr(err)
 		})
 		var targets []godi.Provider
 		if p != nil {
@@ -352,15 +389,15 @@ func TestC15Misuse(t *testing.T) {
 				for _, ty := range []reflect.Type{kit.RType(kit.NumD + 2), kit.RType(kit.NumD + 3), kit.RType(kit.NumD + 4), kit.RType(kit.TI0)} {
 					ty := ty
 					check(fmt.Sprintf("t%d.sweep(%v)", k, ty), func() {
-						_, _ = tgt.Get(ty)
-						_, _ = tgt.GetKeyed(ty, "a")
-						_, _ = tgt.GetGroup(ty, "g")
+						use(tgt.Get(ty))
+						use(tgt.GetKeyed(ty, "a"))
+						use(tgt.GetGroup(ty, "g"))
 					})
 				}
 				check(fmt.Sprintf("t%d.sweep(typed)", k), func() {
-					_, _ = godi.Resolve[kit.I0](tgt)
-					_, _ = godi.ResolveKeyed[kit.I0](tgt, "a")
-					_, _ = godi.ResolveGroup[kit.I0](tgt, "g")
+					use(godi.Resolve[kit.I0](tgt))
+					use(godi.ResolveKeyed[kit.I0](tgt, "a"))
+					use(godi.ResolveGroup[kit.I0](tgt, "g"))
 				})
 			}
 		}
@@ -382,31 +419,31 @@ func TestC15Misuse(t *testing.T) {
 			switch c := rapid.IntRange(0, 8).Draw(rt, "call"); c {
 			case 0:
 				if tgt != nil {
-					check(fmt.Sprintf("%s.Get(%v)", tn, ty), func() { _, _ = tgt.Get(ty) })
+					check(fmt.Sprintf("%s.Get(%v)", tn, ty), func() { use(tgt.Get(ty)) })
 				}
 			case 1:
 				if tgt != nil {
-					check(fmt.Sprintf("%s.GetKeyed(%v,%#v)", tn, ty, key), func() { _, _ = tgt.GetKeyed(ty, key) })
+					check(fmt.Sprintf("%s.GetKeyed(%v,%#v)", tn, ty, key), func() { use(tgt.GetKeyed(ty, key)) })
 				}
 			case 2:
 				if tgt != nil {
-					check(fmt.Sprintf("%s.GetGroup(%v,%q)", tn, ty, grp), func() { _, _ = tgt.GetGroup(ty, grp) })
+					check(fmt.Sprintf("%s.GetGroup(%v,%q)", tn, ty, grp), func() { use(tgt.GetGroup(ty, grp)) })
 				}
 			case 3:
 				check(fmt.Sprintf("Resolve*(%s,%#v,%q)", tn, key, grp), func() {
-					_, _ = godi.Resolve[*kit.N0](tgt)
-					_, _ = godi.Resolve[kit.I0](tgt)
-					_, _ = godi.Resolve[int](tgt)
-					_, _ = godi.Resolve[context.Context](tgt)
-					_, _ = godi.ResolveKeyed[*kit.N0](tgt, key)
-					_, _ = godi.ResolveGroup[*kit.N1](tgt, grp)
-					_, _ = godi.ResolveGroup[kit.I0](tgt, grp)
+					use(godi.Resolve[*kit.N0](tgt))
+					use(godi.Resolve[kit.I0](tgt))
+					use(godi.Resolve[int](tgt))
+					use(godi.Resolve[context.Context](tgt))
+					use(godi.ResolveKeyed[*kit.N0](tgt, key))
+					use(godi.ResolveGroup[*kit.N1](tgt, grp))
+					use(godi.ResolveGroup[kit.I0](tgt, grp))
 				})
 			case 4:
 				check("FromContext", func() {
-					_, _ = godi.FromContext(nil) //nolint
-					_, _ = godi.FromContext(context.Background())
-					_, _ = godi.FromContext(context.WithValue(context.Background(), keyStruct{}, 1))
+					use(godi.FromContext(nil)) //nolint
+					use(godi.FromContext(context.Background()))
+					use(godi.FromContext(context.WithValue(context.Background(), keyStruct{}, 1)))
 				})
 			case 5:
 				if tgt != nil {
